@@ -22,7 +22,6 @@ import (
 const (
 	aofTarget   = "target:6379"
 	aofRunID    = "aaaaaaaaaaaaaaaaaaaaaaaaaaaaaaaaaaaaaaaa"
-	aofS0       = int64(1000) // stream start offset
 	durBatch    = 1001 * time.Millisecond
 	durKeep     = 3001 * time.Millisecond
 	durCp       = 7001 * time.Millisecond
@@ -115,6 +114,22 @@ func newAofEnv(t *testing.T) *aofEnv {
 	vtime.Register(durKeep, "keepalive")
 	vtime.Register(durCp, "cp")
 	return &aofEnv{t: t, srv: redisd.New(aofTarget)}
+}
+
+// aofS0 is the stream start offset of the execution under way. Scenarios of the H-aof checks
+// choose it with their Base field ("" = 1000, "0" = 0, "big" = 2^32+7); every other harness
+// leaves it at 1000.
+var aofS0 = int64(1000)
+
+func setBase(b string) {
+	switch b {
+	case "0":
+		aofS0 = 0
+	case "big":
+		aofS0 = 1<<32 + 7
+	default:
+		aofS0 = 1000
+	}
 }
 
 // curPre, when set, turns the quiescence waits of this harness into preemption-aware ones.
